@@ -87,3 +87,34 @@ def rule_logic_truth(db: ProgramDB) -> List[Instance]:
                             "the left side is not asked for its false rows: assignments on which the left side is false never "
                             "reach the right side", line=s.line))
     return out
+
+
+def rule_or_left_total(db: ProgramDB) -> List[Instance]:
+    """A disjunction must try its right operand for every binding on which the left operand is not true - including the
+    bindings for which the left operand produces *no row at all* (e.g. a comparison on flatten(e) when e is empty).
+    ElseIf decides that from the rows the left side yields: per false row, plus one global 'the left side yielded
+    nothing' test, which does not cover a left side that yields rows for some bindings of the shared variables only."""
+    out = []
+    m = db.method("ElseIf", "_evaluate__", inherited=False)
+    # a flag set by any left row and tested after the loop to decide whether the right side runs on the incoming binding
+    flags = set()
+    left_loops = [l for l in own_nodes(m.node) if isinstance(l, ast.For)]
+    for l in left_loops:
+        for s in l.body[:2]:
+            if isinstance(s, ast.Assign) and isinstance(s.value, ast.Constant) and s.value.value is True \
+                    and isinstance(s.targets[0], ast.Name):
+                flags.add(s.targets[0].id)
+    global_tests = [n for n in own_nodes(m.node) if isinstance(n, ast.If) and isinstance(n.test, ast.UnaryOp)
+                    and isinstance(n.test.op, ast.Not) and isinstance(n.test.operand, ast.Name) and n.test.operand.id in flags]
+    # can an operand yield no row for a binding even when asked for false rows?  (one-to-many mappings over an empty value)
+    from .aggregates import rule_flatten_keyed
+    partial_operands = [i.construct.split(".")[0] for i in rule_flatten_keyed(db) if i.verdict in (HOLDS, VIOLATION)]
+    bad = bool(global_tests) and bool(partial_operands)
+    out.append(inst("OR-LEFT-TOTAL", VIOLATION if bad else HOLDS, m, "ElseIf._evaluate__[right side for bindings the left side skips]",
+                    f"the right side is evaluated for the false rows of the left side, and on the whole incoming binding only if the "
+                    f"left side yielded nothing at all (`{unparse(global_tests[0].test)}`): a left operand that yields no row for "
+                    f"*some* bindings (a condition on {', '.join(partial_operands)} over an empty collection) hides those bindings "
+                    f"from the right side, so or_(a, b) and or_(b, a) differ" if bad else
+                    "the right side is tried for every binding on which the left side is not true",
+                    line=global_tests[0].lineno if global_tests else m.lineno))
+    return out
